@@ -26,6 +26,10 @@ class Obligation:
         return "%s|%s|%s" % (self.body, self.kind, self.what)
 
 
+EXTERNAL_DISCR = {"core::cmp::Ordering": {0: -1, 1: 0, 2: 1}}
+INDEX_IS_DISCR = {"core::option::Option", "core::result::Result", "core::ops::control_flow::ControlFlow", "tuple", "array"}
+
+
 class Ctx:
     """analysis context shared by all function analyses of one run"""
 
@@ -57,10 +61,22 @@ class Ctx:
         DISCR_RANGE.setdefault("core::option::Option", (0, 1))
         DISCR_RANGE.setdefault("core::result::Result", (0, 1))
         DISCR_RANGE.setdefault("core::ops::control_flow::ControlFlow", (0, 1))
+        # enums of the standard library are not in the facts file; the ones below are the ones whose values the models build.
+        # Ordering has explicit discriminants (-1, 0, 1): a match on it switches on those, not on the variant index.
+        DISCR_RANGE.setdefault("core::cmp::Ordering", (-1, 1))
+        for vi, dv in EXTERNAL_DISCR["core::cmp::Ordering"].items():
+            absint.DISCR_OF.setdefault(("core::cmp::Ordering", vi), dv)
 
     def variant_discr(self, adt, vi):
+        """discriminant value of variant vi; None when the enum is not known (the caller must then keep the value opaque)"""
         a = self.prog.adts.get(adt)
-        if a is None or a["kind"] != "enum" or vi >= len(a["variants"]):
+        if a is None:
+            if adt in EXTERNAL_DISCR:
+                return EXTERNAL_DISCR[adt].get(vi)
+            if adt in INDEX_IS_DISCR:
+                return vi
+            return None
+        if a["kind"] != "enum" or vi >= len(a["variants"]):
             return vi
         return int(a["variants"][vi]["discr"])
 
@@ -252,9 +268,10 @@ def apply_shape(S, R, shape, ctx, adt=None, depth=0):
         vis = sorted(shape["variants"])
         if vis:
             discrs = [ctx.variant_discr(adt, vi) if adt else vi for vi in vis]
-            lo, hi = min(discrs), max(discrs)
-            excl = frozenset(x for x in range(lo, hi + 1) if x not in discrs)
-            S.set_dom(("discr", R), Dom(lo, hi, excl))
+            if None not in discrs:
+                lo, hi = min(discrs), max(discrs)
+                excl = frozenset(x for x in range(lo, hi + 1) if x not in discrs)
+                S.set_dom(("discr", R), Dom(lo, hi, excl))
         for vi, fields in shape["variants"].items():
             if not fields:
                 continue
@@ -613,13 +630,13 @@ class Interp:
         while isinstance(v, tuple) and v[0] == "upd":
             # an update refines / overwrites payload fields below a downcast, never the variant itself
             v = v[1]
-        if isinstance(v, tuple) and v[0] == "agg" and isinstance(v[1], str) and v[2] is not None:
+        if isinstance(v, tuple) and v[0] == "agg" and isinstance(v[1], str) and v[2] is not None and self.ctx.variant_discr(v[1], v[2]) is not None:
             return K("isize", self.ctx.variant_discr(v[1], v[2]))
         if isinstance(v, tuple) and v[0] == "try":
             x = v[1]
             while isinstance(x, tuple) and x[0] == "upd":
                 x = x[1]
-            if isinstance(x, tuple) and x[0] == "agg" and isinstance(x[1], str) and x[2] is not None:
+            if isinstance(x, tuple) and x[0] == "agg" and isinstance(x[1], str) and x[2] is not None and self.ctx.variant_discr(x[1], x[2]) is not None:
                 inner = K("isize", self.ctx.variant_discr(x[1], x[2]))
             else:
                 inner = ("discr", x)
